@@ -8,15 +8,15 @@ import Rscp.Gen.Leaves
 namespace Rscp.Tie.Cli
 
 /-- source of `e3dc_main` is unchanged -/
-theorem shape_e3dc_main : Rscp.Gen.Shape.e3dc_main = "85a2e9b4f43cb9af5110828fbdd4cfbf" := rfl
+theorem shape_e3dc_main : Rscp.Gen.Shape.e3dc_main = "e025603d2db3fb2c065061d8f47e501d" := rfl
 /-- source of `e3dc_run` is unchanged -/
-theorem shape_e3dc_run : Rscp.Gen.Shape.e3dc_run = "a56d86821e515d633d17f85d10f33332" := rfl
+theorem shape_e3dc_run : Rscp.Gen.Shape.e3dc_run = "3744fb6a0dae46009e2819eabdb9c53f" := rfl
 /-- source of `e3dc_parseFlags` is unchanged -/
-theorem shape_e3dc_parseFlags : Rscp.Gen.Shape.e3dc_parseFlags = "3b739cca18a1039abe79a0448aeebce2" := rfl
+theorem shape_e3dc_parseFlags : Rscp.Gen.Shape.e3dc_parseFlags = "6ee064d4c1abf1046b6ba6c050e6ef4b" := rfl
 /-- source of `e3dc_checkFlags` is unchanged -/
-theorem shape_e3dc_checkFlags : Rscp.Gen.Shape.e3dc_checkFlags = "47709626c4ab6b18ce0c26bb5afcc226" := rfl
+theorem shape_e3dc_checkFlags : Rscp.Gen.Shape.e3dc_checkFlags = "a81cd1d63e929cec1d1a3d80ebaf39ce" := rfl
 /-- source of `e3dc_printUsage` is unchanged -/
-theorem shape_e3dc_printUsage : Rscp.Gen.Shape.e3dc_printUsage = "cced0c083e3d2abdd713c590e8aeb146" := rfl
+theorem shape_e3dc_printUsage : Rscp.Gen.Shape.e3dc_printUsage = "8ab9195104714ccbd36880c1297db274" := rfl
 /-- source of `e3dc_printVersion` is unchanged -/
 theorem shape_e3dc_printVersion : Rscp.Gen.Shape.e3dc_printVersion = "18f44c62d671703f66af26d155540835" := rfl
 
